@@ -167,10 +167,11 @@ def l1d_split(rng, xs, variant, bounds):
     raise ValueError(variant)
 
 
-def l1d_ops(told, pend, mode, inflight, order=None, cut=None):
-    """Concrete op list for one way of delivering the same results."""
+def l1d_ops(told, pend, mode, inflight, order=None, cut=None, prefix=None):
+    """Concrete op list for one way of delivering the same results.  `prefix`: the history that built the
+    start state (a first run, remove_unfinished(), new requests), common to all deliveries."""
     pts = told if order is None else [told[i] for i in order]
-    ops = [("tell_pending", p) for p in pend]
+    ops = list(prefix or []) + [("tell_pending", p) for p in pend]
     if inflight:
         ops += [("tell_pending", x) for x, _ in sorted(told)]
     if mode == "incremental":
@@ -183,6 +184,38 @@ def l1d_ops(told, pend, mode, inflight, order=None, cut=None):
         ops.append(("tell_many", list(pts[:cut]), True))
         ops += [("tell", x, y) for x, y in pts[cut:]]
     return ops
+
+
+def l1d_second_run(cfg, rng, ntold):
+    """Start state of a SECOND run on the same learner: a first ask-driven history with partial delivery,
+    remove_unfinished() (what every runner does when it stops), then new requests -- several points per old
+    interval -- of which `ntold` will be delivered (the others stay pending between them and the old points).
+    Returns (prefix ops, results to deliver)."""
+    g, _ = I.make_learner(cfg)
+    ops = []
+
+    def request(k):
+        pts = [float(x) for x in g.ask(k)[0]]
+        ops.extend(("tell_pending", x) for x in pts)
+        return pts
+
+    def deliver(xs):
+        for x in xs:
+            y = I.yval(cfg, x)
+            g.tell(x, I.to_impl_y(y))
+            ops.append(("tell", x, y))
+
+    first = request(rng.randint(3, 6))           # the two end points come first
+    rng.shuffle(first)
+    deliver(first)
+    more = request(rng.randint(2, 4))
+    rng.shuffle(more)
+    deliver(more[:rng.randint(0, len(more) - 1)])
+    g.remove_unfinished()
+    ops.append(("remove_unfinished",))
+    asked = request(ntold + rng.randint(1, 4))
+    told_x = sorted(rng.sample(asked, min(ntold, len(asked))))
+    return ops, [(x, I.yval(cfg, x)) for x in told_x]
 
 
 def l1d_run(cfg, ops, bracket=False, observe=True):
@@ -211,7 +244,7 @@ def l1d_run(cfg, ops, bracket=False, observe=True):
     return l, rec, steps, obs, errs
 
 
-def l1d_case(chk, cfg, told, pend, inflight, rng, stats, cases, metas, max_exhaustive, nrandom, origin):
+def l1d_case(chk, cfg, told, pend, inflight, rng, stats, cases, metas, max_exhaustive, nrandom, origin, prefix=None):
     """All deliveries of one result set.  Returns number of deliveries compared."""
     n = len(told)
     idx = list(range(n))
@@ -222,9 +255,9 @@ def l1d_case(chk, cfg, told, pend, inflight, rng, stats, cases, metas, max_exhau
         orders = [tuple(idx)] + [tuple(rng.sample(idx, n)) for _ in range(nrandom)]
     factor1 = cfg["factor"] == 1
     replay = {"kind": "l1d", "cfg": cfg, "told": [[x, list(y) if isinstance(y, tuple) else y] for x, y in told],
-              "pend": pend, "inflight": inflight}
+              "pend": pend, "inflight": inflight, "prefix": [I.op_json(o) for o in prefix] if prefix else None}
     lo, hi = cfg["bounds"]
-    covered0 = all(b in pend or (inflight and any(b == x for x, _ in told)) for b in (lo, hi))
+    covered0 = bool(prefix) or all(b in pend or (inflight and any(b == x for x, _ in told)) for b in (lo, hi))
     deliveries = []
     for k, order in enumerate(orders):
         deliveries.append(("incremental", order, None))
@@ -241,7 +274,7 @@ def l1d_case(chk, cfg, told, pend, inflight, rng, stats, cases, metas, max_exhau
     picks = set(rng.sample(range(len(deliveries)), min(coq_budget, len(deliveries))))
     done = 0
     for j, (mode, order, cut) in enumerate(deliveries):
-        ops = l1d_ops(told, pend, mode, inflight, order, cut)
+        ops = l1d_ops(told, pend, mode, inflight, order, cut, prefix)
         try:
             l, rec, steps, obs, errs = l1d_run(cfg, ops, bracket=not factor1, observe=j in picks)
         except OverflowError:
@@ -319,6 +352,30 @@ def run_l1d(chk, stats, cases, metas):
         chk.note_case(("l1d", cfg, told, pend, inflight), bool(pend) and n > 4)
         if k < 3:
             chk.sample({"learner": "Learner1D", "cfg": cfg, "told": told_x, "pending": pend, "deliveries": n})
+        if len(chk.failures) > 5:
+            break
+    # second runs: the deliveries start from a learner that already has data and went through remove_unfinished()
+    for k in range(50 if quick else 300):
+        rng = chk.rng("l1d2", k)
+        func = rng.choice(["vec", "vec_step"]) if rng.random() < 0.3 else rng.choice(list(I.FUNCS))
+        cfg = {"func": func, "bounds": list(rng.choice(I.BOUNDS)),
+               "loss": L1D_LOSSES[k % len(L1D_LOSSES)], "factor": 1 if rng.random() < 0.8 else 2}
+        if cfg["loss"] == "abs_min_log" and cfg["func"] not in ("grow", "const"):
+            cfg["func"] = rng.choice(["grow", "const"])
+        ntold = rng.choice([2, 3, 3, 4, 4, 5] if quick else [2, 3, 4, 5, 6, 8])
+        try:
+            prefix, told = l1d_second_run(cfg, rng, ntold)
+        except OverflowError:
+            continue
+        n = l1d_case(chk, cfg, told, [], False, rng, stats, cases, metas,
+                     max_exhaustive=5 if quick else 6, nrandom=6 if quick else 20,
+                     origin=f"seed{chk.seed}/l1d2_{k}", prefix=prefix)
+        stats["second_run_cases"] += 1
+        stats["vector"] += cfg["func"].startswith("vec")
+        chk.note_case(("l1d2", cfg, told, prefix), n > 2)
+        if k < 1:
+            chk.sample({"learner": "Learner1D (second run)", "cfg": cfg, "prefix": [I.op_json(o) for o in prefix],
+                        "told": [x for x, _ in told], "deliveries": n})
         if len(chk.failures) > 5:
             break
 
@@ -523,7 +580,7 @@ def run(chk: Check) -> int:
     stats = {k: 0 for k in ["deliveries", "incremental", "batch", "default", "mixed", "exhaustive_sets",
                             "losc_rounding_diffs", "ask_ties_accepted", "pending_left_of_first",
                             "pending_in_first_interval", "vector", "factor2_cases", "avg_deliveries",
-                            "avg_exhaustive_sets", "seq_deliveries", "seq_exhaustive_sets"]}
+                            "avg_exhaustive_sets", "seq_deliveries", "seq_exhaustive_sets", "second_run_cases"]}
     cases, metas = [], []
     for f in sorted((chk.work.parents[1] / "corpus" / "C11").glob("*.json")):
         d = json.loads(f.read_text())
@@ -555,7 +612,9 @@ def run(chk: Check) -> int:
              "5 bounds, the 6 shipped 1D losses; each set is delivered in every order (<= 5 results quick / <= 6 thorough; random "
              "orders beyond), by tell, by one forced-batch tell_many, by tell_many with the default switch and by batch + "
              "incremental, with a fixed pending set (none / random interior / inside the first interval / lower end point pending "
-             "with a further pending point left of the first evaluated point), optionally with all results in flight; "
+             "with a further pending point left of the first evaluated point), optionally with all results in flight; second runs: "
+             "the deliveries start from a learner built by a first ask-driven history with partial delivery, remove_unfinished() "
+             "and new requests (several per old interval, some of which stay pending); "
              "_recompute_losses_factor = 1 (80 %) compares losses exactly, losses_combined, loss(real=False) to 1e-12 relative, "
              "ask(1..10, tell_pending=False) with tie-aware matching; factor 2 checks the C01 staleness bracket; AverageLearner "
              "(dyadic values: exact; gaussian: 1e-12 x conditioning) and SequenceLearner (exact) likewise incl. repeated seeds; "
@@ -571,8 +630,9 @@ def replay_one(r, chk=None, stats=None, cases=None, metas=None):
     if r.get("kind") == "l1d":
         told = [(x, tuple(y) if isinstance(y, list) else y) for x, y in r["told"]]
         cfg = r["cfg"]
-        ref_ops = l1d_ops(told, r["pend"], "incremental", r["inflight"], list(range(len(told))))
-        ops = l1d_ops(told, r["pend"], r.get("mode", "incremental"), r["inflight"], r.get("order"), r.get("cut"))
+        prefix = [I.norm_op(o) for o in r["prefix"]] if r.get("prefix") else None
+        ref_ops = l1d_ops(told, r["pend"], "incremental", r["inflight"], list(range(len(told))), None, prefix)
+        ops = l1d_ops(told, r["pend"], r.get("mode", "incremental"), r["inflight"], r.get("order"), r.get("cut"), prefix)
         _, _, _, ref, _ = l1d_run(cfg, ref_ops)
         _, _, _, obs, errs = l1d_run(cfg, ops, bracket=cfg["factor"] != 1)
         bad = l1d_compare(ref, obs, stats) if cfg["factor"] == 1 else (errs[0] if errs else None)
